@@ -41,12 +41,13 @@ pub fn exec(a: &[&str]) -> String {
         }
         "str" => {
             let bytes = unhex(a[1]);
-            let d = DnaString::from_dna_string(std::str::from_utf8(&bytes).unwrap());
+            // the bytes of the request are code points (0..255): characters beyond ASCII are two bytes of UTF-8 but one character
+            let d = DnaString::from_dna_string(&bytes.iter().map(|b| *b as char).collect::<String>());
             format!("{}|{}", show_t(&d), txt(d.to_string().as_bytes()))
         }
         "only" => {
             let bytes = unhex(a[1]);
-            let v = DnaString::from_dna_only_string(std::str::from_utf8(&bytes).unwrap());
+            let v = DnaString::from_dna_only_string(&bytes.iter().map(|b| *b as char).collect::<String>());
             if v.is_empty() { "-".into() } else { v.iter().map(|d| show_digits(&bases(d))).collect::<Vec<_>>().join(",") }
         }
         "hashn" => {
@@ -107,7 +108,7 @@ pub fn gen(rng: &mut Rng, _tier: &str) -> String {
             let b: Vec<u8> = if rng.chance(3, 4) { (0..32).map(|_| rng.below(4) as u8).collect() } else { (0..32).map(|_| rng.below(256) as u8).collect() };
             format!("C16 kernel pack {}", tohex(&b))
         }
-        8 => { let n = len_choice(rng); format!("C16 str {}", tohex(&ascii_mix(rng, n, true))) }
+        8 => { let n = len_choice(rng); let ao = rng.chance(1, 2); format!("C16 str {}", tohex(&ascii_mix(rng, n, ao))) }
         9 => {
             if rng.chance(1, 2) {
                 // runs of bases with lengths on both sides of the 32-base block boundaries, one to three separators between
@@ -118,11 +119,17 @@ pub fn gen(rng: &mut Rng, _tier: &str) -> String {
                     if rng.chance(4, 5) { b.extend((0..rng.range(1, 3)).map(|_| *rng.pick(b"NnXx-. \n0Uu"))); }
                 }
                 format!("C16 only {}", tohex(&b))
-            } else { let n = len_choice(rng); format!("C16 only {}", tohex(&ascii_mix(rng, n, true))) }
+            } else { let n = len_choice(rng); let ao = rng.chance(1, 2); format!("C16 only {}", tohex(&ascii_mix(rng, n, ao))) }
         }
         _ => {
             let n = rng.below(60);
-            let b1 = ascii_mix(rng, n, false);
+            let mut b1 = ascii_mix(rng, n, false);
+            if rng.chance(1, 3) {
+                // a gap: a run of 30..100 non-ACGT bytes somewhere in the read (whole 32-base blocks without a valid base)
+                let at = rng.below(b1.len() + 1);
+                let run: Vec<u8> = (0..rng.range(30, 100)).map(|_| *rng.pick(b"NNNNn-X")).collect();
+                b1.splice(at..at, run);
+            }
             // second string: same length, other ACGT letters, non-ACGT at overlapping and new positions
             let b2: Vec<u8> = b1.iter().map(|c| if rng.chance(1, 3) { rng.below(256) as u8 } else if rng.chance(1, 2) { *rng.pick(b"ACGTacgt") } else { *c }).collect();
             let nl = rng.below(12);
